@@ -231,6 +231,8 @@ def check(ctx):
            sample={"casts": ncast})
     ctx.floor("R-2", "numeric casts", ncast, 20)
 
+    from rules import extractors as _ex
+    _ex.check_extractors(ctx.under("R-1", "extractors"), "R-1", only={"try_as_integer"})      # the Integer narrowed is the item's own
     # ---- R-3 -------------------------------------------------------------------------
     conv = prog.fn("<common::CoseError as core::convert::From<core::num::error::TryFromIntError>>::from")
     rt = Prov(conv).return_term()
